@@ -175,6 +175,7 @@ def make_unit(name, A, B=None, mode="F", modset=(), frees=False, race=False, tra
     `inputs` is filled in by the caller (harness.inputs)."""
     ex = UnitExporter(mode)
     ida = ex.proc(A)
+    n_a = len(ex.procs)
     idb = ex.proc(B) if B is not None else 0
     mods = [ex.cfgkey(c, f) for (c, f) in modset]
     if outmap is None:
@@ -183,7 +184,7 @@ def make_unit(name, A, B=None, mode="F", modset=(), frees=False, race=False, tra
     unit = {"name": name, "mode": mode, "A": ida, "B": idb, "procs": ex.procs,
             "cfgs": list(ex.cfgs), "cfgbool": [t == T.bool for t in ex.cfgtypes()],
             "modset": mods, "frees": bool(frees), "race": bool(race), "trace": bool(trace),
-            "outmap": outmap, "inputs": []}
+            "outmap": outmap, "nA": n_a, "inputs": []}
     if extra:
         unit.update(extra)
     return unit, ex
